@@ -21,7 +21,7 @@ static const c09_class c09_classes[K_NCLASS] = {
    { REF_MODE_CELT_ONLY, BWF, 200, 64000, 96000, "celt-fb-20ms" },
 };
 
-typedef struct { int klass, ch, sig, decfs; char name[80]; } c09_cfg;
+typedef struct { int klass, ch, sig, decfs; char name[80]; int ench; /* encoder channels when they differ from the decoder's (ch); 0 = same */ } c09_cfg;
 
 /* signal families: the two shared ones (mc/signals.h) plus two level-stepping voiced families generated here. The concealment code reads
  * from the last good frame: SILK the gains of its last two 5 ms sub-frames, the LTP taps, the pitch lag, the signal type and the noise
@@ -36,7 +36,8 @@ static int c09_sigk(int sig){ return sig==SIG_SPEECH?0:sig==SIG_MULTITONE?1:sig=
 static const int c09_sigid[C09_NSIG]={SIG_SPEECH,SIG_MULTITONE,C09_SIG_STEP47,C09_SIG_STEP13};
 
 static void c09_cfg_name(c09_cfg *c){
-   snprintf(c->name,sizeof c->name,"%s/%s/%s/dec%dk",c09_classes[c->klass].tag,c->ch==1?"mono":"stereo",c09_signame[c09_sigk(c->sig)],c->decfs/1000);
+   if (c->ench && c->ench!=c->ch) snprintf(c->name,sizeof c->name,"%s/%s-stream-into-%s-decoder/%s/dec%dk",c09_classes[c->klass].tag,c->ench==1?"mono":"stereo",c->ch==1?"mono":"stereo",c09_signame[c09_sigk(c->sig)],c->decfs/1000);
+   else snprintf(c->name,sizeof c->name,"%s/%s/%s/dec%dk",c09_classes[c->klass].tag,c->ch==1?"mono":"stereo",c09_signame[c09_sigk(c->sig)],c->decfs/1000);
 }
 /* voiced source: f0 = 150 +- 20 Hz, 10 harmonics with 1/h roll-off (peak ~1.85 x level), plus 10 LSB of noise.
  * steps47: the level holds one of 8 values for 47 ms each: 400 ->x20 8000 ->/5 1600 ->x2 3200 ->/10 320 ->x20 6400 ->/2 3200 ->/5 640 ->/1.6 400 ...
@@ -73,20 +74,20 @@ static int c09_offsets(int klass,int *off){ int d=c09_classes[klass].dur_x10;
 
 /* build the stream: npk packets after 2 warm-up frames the decoder never sees */
 static void c09_build(corpus *cp,const c09_cfg *c,int npk){
-   const c09_class *k=&c09_classes[c->klass]; ccfg cc; int app;
-   cc.mode=k->mode; cc.bw=k->bw; cc.dur_x10=k->dur_x10; cc.ch_force=0; cc.bitrate=c->ch==1?k->bitrate1:k->bitrate2;
+   const c09_class *k=&c09_classes[c->klass]; ccfg cc; int app, ech=c->ench?c->ench:c->ch;
+   cc.mode=k->mode; cc.bw=k->bw; cc.dur_x10=k->dur_x10; cc.ch_force=0; cc.bitrate=ech==1?k->bitrate1:k->bitrate2;
    app = k->mode==REF_MODE_CELT_ONLY ? OPUS_APPLICATION_AUDIO : OPUS_APPLICATION_VOIP;
    memset(cp,0,sizeof *cp);
-   if (c->sig<100){ corpus_stream(cp,c->name,48000,c->ch,app,c->sig,&cc,npk+2,NULL,0,1,0,0,2); return; }
+   if (c->sig<100){ corpus_stream(cp,c->name,48000,ech,app,c->sig,&cc,npk+2,NULL,0,1,0,0,2); return; }
    {  /* same encoder set-up as corpus_stream (FEC on, expected loss 20 %, forced mode / bandwidth / bitrate), own signal */
-      int err,i,sid,fsz=(int)(48000L*cc.dur_x10/10000); OpusEncoder *e=ref_opus_encoder_create(48000,c->ch,app,&err); c09_gen g; short *pcm; unsigned char out[1500];
+      int err,i,sid,fsz=(int)(48000L*cc.dur_x10/10000); OpusEncoder *e=ref_opus_encoder_create(48000,ech,app,&err); c09_gen g; short *pcm; unsigned char out[1500];
       if(!e){ fprintf(stderr,"c09: encoder_create failed %d\n",err); exit(2); }
-      sid=corpus_new_stream(cp,c->name,48000,c->ch); cp->s[sid].mode=cc.mode; cp->s[sid].bw=cc.bw; cp->s[sid].dur_x10=cc.dur_x10; cp->s[sid].fec=1;
-      memset(&g,0,sizeof g); g.lcg=12345u; pcm=malloc(sizeof(short)*c->ch*fsz);
+      sid=corpus_new_stream(cp,c->name,48000,ech); cp->s[sid].mode=cc.mode; cp->s[sid].bw=cc.bw; cp->s[sid].dur_x10=cc.dur_x10; cp->s[sid].fec=1;
+      memset(&g,0,sizeof g); g.lcg=12345u; pcm=malloc(sizeof(short)*ech*fsz);
       ref_opus_encoder_ctl(e,OPUS_SET_INBAND_FEC(1)); ref_opus_encoder_ctl(e,OPUS_SET_PACKET_LOSS_PERC(20));
       corpus_apply(e,&cc);
       for(i=0;i<npk+2;i++){ int n; opus_uint32 rng=0;
-         c09_gen_fill(&g,c->sig,48000,c->ch,pcm,fsz);
+         c09_gen_fill(&g,c->sig,48000,ech,pcm,fsz);
          n=ref_opus_encode(e,pcm,fsz,out,1500); if(n<0){ fprintf(stderr,"c09: encode failed %d (%s)\n",n,c->name); exit(2); }
          ref_opus_encoder_ctl(e,OPUS_GET_FINAL_RANGE(&rng));
          if (i>=2) corpus_push(cp,out,n,sid,i,rng,cc.dur_x10*48/10,0); }
